@@ -3,3 +3,4 @@ import SmtpV.Props.C05
 #print axioms SmtpV.Props.C05.C05_refused_chunk_discarded
 #print axioms SmtpV.Props.C05.C05_segmentation_independent
 #print axioms SmtpV.Props.C05.C05_failed_chunk_skipped
+#print axioms SmtpV.Props.C05.C05_payload_delivered_exactly
